@@ -98,6 +98,8 @@ def run(rep, repo, tier):
     long_lived = set(repo.classes) - constructed
     check_resets(rep, repo, E, solve, sreach, long_lived)
     check_options_readonly(rep, repo, E, solve, getters, len(sevs), 'C18.R3')
+    from ..defined import check_defined
+    check_defined(rep, repo, 'C18.R4', getters + [solve], 'getters and solve')
     check_never_fail(rep, repo, E, getters)
     check_fresh_objects(rep, repo, E, solve, sreach, long_lived)
 
